@@ -4,5 +4,6 @@ import "verifharness/lach"
 
 func init() {
 	commands["lachreplay"] = func(a []string) int { return lach.CmdReplayStates(a, seed()) }
+	commands["vecreplay"] = lach.CmdVecReplay
 	commands["lachrecord"] = func(a []string) int { return lach.CmdRecord(a, seed()) }
 }
